@@ -119,7 +119,7 @@ def carrier_names():
     names += ['arr0.' + t for t in NP_FLOATS + NP_INTS]
     names += ['arr1.' + t for t in ('float32', 'float64', 'int16', 'int64', 'uint8')]
     names += ['arr2.float64', 'arr2.int32']
-    names += ['list', 'nlist', 'tuple', 'ntuple', 'ltuple', 'decstr', 'lstr']
+    names += ['list', 'nlist', 'tuple', 'ntuple', 'ltuple', 'decstr', 'lstr', 'tstr', 'ndstr', 'nd0str']
     return names
 
 
@@ -155,11 +155,11 @@ def carry(d, name):
         return ((base, base), (base, base))
     if name == 'ltuple':
         return [(base, base), (base, base)]
-    if name in ('decstr', 'lstr'):
+    if name in ('decstr', 'lstr', 'tstr', 'ndstr', 'nd0str'):
         s = decimal_string(d)
         if s is None:
             return None
-        return s if name == 'decstr' else [s, s]
+        return {'decstr': s, 'lstr': [s, s], 'tstr': (s, s), 'ndstr': np.array([s, s]), 'nd0str': np.array(s)}[name]
     raise ValueError(name)
 
 
